@@ -2,7 +2,7 @@
    Only ExtrOcamlBasic (bool, option, list, pairs, unit -> OCaml natives);
    Z, positive, N, nat stay extracted datatypes; no Extract Constant. *)
 From Coq Require Import Extraction ExtrOcamlBasic.
-From PV Require Import Base Heap Rng NND Diversify SearchGraph RPTree Search SparseOps Metrics.
+From PV Require Import Base Heap Rng NND Diversify SearchGraph RPTree Search SparseOps Metrics OT.
 Extraction Language OCaml.
 Set Extraction KeepSingleton.
 Extraction "../ocaml/model.ml"
@@ -21,4 +21,5 @@ Extraction "../ocaml/model.ml"
   Search.search_one Search.translate Search.fmul32
   SparseOps.sparse_sum SparseOps.sparse_diff SparseOps.sparse_mul SparseOps.sparse_dot_product SparseOps.fast_intersection_size
   Metrics.counts Metrics.m_hamming Metrics.m_matching Metrics.m_jaccard Metrics.m_dice Metrics.m_kulsinski
-  Metrics.m_rogerstanimoto Metrics.m_sokalmichener Metrics.m_russellrao Metrics.m_sokalsneath Metrics.m_yule.
+  Metrics.m_rogerstanimoto Metrics.m_sokalmichener Metrics.m_russellrao Metrics.m_sokalsneath Metrics.m_yule
+  OT.ot_cert_chk Z.add Z.mul Z.opp.
